@@ -155,6 +155,9 @@ type SpecOpts struct {
 	// IneqBound: an action binds an inequality variable to an integer
 	// and a message branch uses it.
 	IneqBound bool
+	// IneqOdd (with IneqBound): the plain counterpart of the inequality
+	// variable may be bound to something that is not a number
+	IneqOdd bool
 	// Lively: specs that keep moving -- message nodes end with a
 	// catch-all branch, action nodes with a default branch, targets
 	// are mostly existing nodes.
@@ -633,8 +636,14 @@ func GenLivelySpec(t *rapid.T, o SpecOpts) *ASpec {
 		v := rapid.SampledFrom([]string{"?<lim", "?>=lim", "?!=lim"}).Draw(t, "ineq.v")
 		an.Action.Ops = append([]Op{{Op: "set", K: v, V: float64(rapid.IntRange(1, 3).Draw(t, "ineq.b"))}}, an.Action.Ops...)
 		if rapid.Bool().Draw(t, "ineq.plain") {
-			an.Action.Ops = append([]Op{{Op: "set", K: "?lim", V: float64(rapid.IntRange(1, 3).Draw(t, "ineq.p"))}}, an.Action.Ops...)
+			var pv interface{} = float64(rapid.IntRange(1, 3).Draw(t, "ineq.p"))
+			if o.IneqOdd && rapid.Bool().Draw(t, "ineq.odd") {
+				pv = rapid.SampledFrom([]interface{}{"text", nil, map[string]interface{}{"a": 1.0}, []interface{}{1.0}, true}).Draw(t, "ineq.oddv")
+			}
+			an.Action.Ops = append([]Op{{Op: "set", K: "?lim", V: pv}}, an.Action.Ops...)
 		}
+		// messages on both sides of the bound
+		a.HintMsgs = append(a.HintMsgs, map[string]interface{}{"c": 0.0}, map[string]interface{}{"c": 2.0}, map[string]interface{}{"c": 7.0})
 		mn := a.Nodes[rapid.SampledFrom(mnodes).Draw(t, "ineq.m")]
 		mn.Branches = append([]ABranch{{HasPattern: true, Pattern: map[string]interface{}{"c": v}, Target: rapid.SampledFrom(all).Draw(t, "ineq.to")}}, mn.Branches...)
 	}
